@@ -285,14 +285,14 @@ func (c *VirtualTable) BestIndex(input []IndexInput, order []OrderInput) (*Index
 	out.AlreadyOrdered = true
 	var desc *bool
 	for i := range order {
-		if order[i].Column != c.KeyCol {
+		if order[i].Column != c.KeyCol || i > 0 {
+			// not (only) the key: SQLite sorts the rows itself
 			out.AlreadyOrdered = false
 		}
-		if desc != nil {
-			return nil, errors.New("order specified multiple times")
+		if i == 0 {
+			v := order[i].Desc
+			desc = &v
 		}
-		v := order[i].Desc
-		desc = &v
 	}
 	if desc == nil {
 		a := false
